@@ -1,0 +1,17 @@
+//go:build verif
+
+package redis
+
+import "sync"
+
+// This file is compiled only with `-tags verif` (verification harness in /verif); it adds nothing to the normal build.
+
+// VerifLocked reports whether the queue's lock is held at this moment (by anyone); see persistence/queue/mem.
+func (q *Queue) VerifLocked() bool {
+	m := q.cond.L.(*sync.Mutex)
+	if m.TryLock() {
+		m.Unlock()
+		return false
+	}
+	return true
+}
